@@ -78,40 +78,40 @@ var specs = map[string]spec{
 		assumptions: []string{"tags are distinct per in-flight instruction; equal tags resolve to the later arrival", "out-of-order tag arrival is excluded from the value claims while finding F14 is listed in known-findings.txt (the never-younger read claim is judged regardless)"},
 	},
 	"C01": {
-		jobs:        []job{{name: "mixed", test: "TestC01", rapid: true, checks: [2]int{150, 4000}, shards: [2]int{16, 16}, secs: [2]int{900, 7200}}},
+		jobs:        []job{{name: "mixed", test: "TestC01", rapid: true, checks: [2]int{150, 15000}, shards: [2]int{16, 16}, secs: [2]int{900, 7200}}},
 		rule:        "Programs drawn by the concolic builder from the profiles REG 40% / MEM 35% / SHADOW 15% / WALK 10% (3-60 static instructions in quick, up to 200 in thorough; all mnemonics; full-range initial registers; memory images 64 B - 16 KB; exit by ret or fall-through), each run on all 33 configurations (12 variants, parallelism 1..4) and compared with the reference: 32 registers, every memory byte, no error, no panic, within the budget. Non-trivial = >= 5 executed instructions, >= 1 register written and two adjacent independent instructions in the trace; distinct by (program text, registers, memory image).",
 		assumptions: []string{"the reference interpreter harness/ref is the sequential semantics (cross-checked per instruction by C02)", "parallelism p means EU = WU = p on MVP-6.x and p cores on MVP-7.x/8", "a case matching the trigger of a finding listed in /verif/known-findings.txt is not judged on the configurations of that finding (counted under excluded_by_known_finding)", "budget of simulated loop iterations = 16 x (executed instructions + 64) x 309, never wall-clock"},
 	},
 	"C03": {
-		jobs:        []job{{name: "shadow", test: "TestC03", rapid: true, checks: [2]int{150, 4000}, shards: [2]int{16, 16}, secs: [2]int{900, 7200}}},
+		jobs:        []job{{name: "shadow", test: "TestC03", rapid: true, checks: [2]int{150, 15000}, shards: [2]int{16, 16}, secs: [2]int{900, 7200}}},
 		rule:        "SHADOW / SHADOWSLOW programs: taken conditional branches (70%) and j/jal/jalr over shadows of 1-4 hostile instructions (register writes, stores of every width, in-bounds loads, loads from out-of-bounds and negative addresses, div/rem by the zero register, jal, a further branch), branch operands produced by ALU instructions or by loads issued right before the branch (hit or miss: the branch resolves 1 to ~300 cycles after its shadow was dispatched), loop back-edges whose shadow is the loop exit code; run on all 33 configurations (MVP-1..3 as anchors) and compared with the reference. Non-trivial = some control transfer is taken in the reference run and re-running the reference with that transfer forced to fall through changes the final state or faults (the shadow is hostile); distinct by (text, registers, memory image).",
 		assumptions: []string{"the reference interpreter harness/ref is the sequential semantics (cross-checked per instruction by C02)", "parallelism p means EU = WU = p on MVP-6.x and p cores on MVP-7.x/8", "a case matching the trigger of a finding listed in /verif/known-findings.txt is not judged on the configurations of that finding (counted under excluded_by_known_finding)", "budget of simulated loop iterations = 16 x (executed instructions + 64) x 309, never wall-clock"},
 	},
 	"C04": {
-		jobs:        []job{{name: "pressure", test: "TestC04", rapid: true, checks: [2]int{100, 3000}, shards: [2]int{16, 16}, secs: [2]int{900, 7200}}},
+		jobs:        []job{{name: "pressure", test: "TestC04", rapid: true, checks: [2]int{100, 8000}, shards: [2]int{16, 16}, secs: [2]int{900, 7200}}},
 		rule:        "PRESSURE (2-3 registers, ALU only) and PRESSURELOAD (2-4 registers, load producers, slow branches) programs of 3-24 instructions: chains, fans, WAW and WAR pairs, mixed-latency producers, chained forwards; each (case, configuration) is run three times in one process: all three must equal the reference and return the same cycle count. Non-trivial = the dynamic trace holds a RAW, WAW or WAR register dependence at distance <= 4 (classes dep:raw, dep:waw, dep:war, dep:raw-load-producer, dep:chained are counted); distinct by (text, registers, memory image).",
 		assumptions: []string{"the reference interpreter harness/ref is the sequential semantics (cross-checked per instruction by C02)", "parallelism p means EU = WU = p on MVP-6.x and p cores on MVP-7.x/8", "a case matching the trigger of a finding listed in /verif/known-findings.txt is not judged on the configurations of that finding (counted under excluded_by_known_finding)", "budget of simulated loop iterations = 16 x (executed instructions + 64) x 309, never wall-clock"},
 	},
 	"C05": {
-		jobs:        []job{{name: "cache", test: "TestC05", rapid: true, checks: [2]int{60, 1500}, shards: [2]int{16, 16}, secs: [2]int{900, 7200}}},
+		jobs:        []job{{name: "cache", test: "TestC05", rapid: true, checks: [2]int{60, 3000}, shards: [2]int{16, 16}, secs: [2]int{900, 7200}}},
 		rule:        "CACHE (random aligned lb/lh/lw/sb/sh/sw spread over all lines of 2-16 KB memories), WALK (strided loops, strides 1..1024, loads folded into a checksum register, read-modify-write walks) and MEMSAFE (loads and stores on disjoint halves) programs on the 29 configurations with a data cache (MVP-3..8), compared with the reference registers and the whole memory after Run returns. Non-trivial = the run touches more than 16 lines of 64 bytes (the smallest data cache) and some line is written, evicted (ideal-LRU replay of that geometry over the reference trace) and read again; distinct by (text, registers, memory image).",
 		assumptions: []string{"the reference interpreter harness/ref is the sequential semantics (cross-checked per instruction by C02)", "parallelism p means EU = WU = p on MVP-6.x and p cores on MVP-7.x/8", "a case matching the trigger of a finding listed in /verif/known-findings.txt is not judged on the configurations of that finding (counted under excluded_by_known_finding)", "budget of simulated loop iterations = 16 x (executed instructions + 64) x 309, never wall-clock"},
 	},
 	"C07": {
 		jobs: []job{
-			{name: "terminates", test: "TestC07Terminates", rapid: true, checks: [2]int{120, 3000}, shards: [2]int{12, 12}, secs: [2]int{900, 7200}},
-			{name: "errors", test: "TestC07Errors", rapid: true, checks: [2]int{150, 4000}, shards: [2]int{4, 4}, secs: [2]int{900, 7200}},
+			{name: "terminates", test: "TestC07Terminates", rapid: true, checks: [2]int{120, 10000}, shards: [2]int{12, 12}, secs: [2]int{900, 7200}},
+			{name: "errors", test: "TestC07Errors", rapid: true, checks: [2]int{150, 15000}, shards: [2]int{4, 4}, secs: [2]int{900, 7200}},
 		},
 		rule:        "terminates: programs of the profiles REG, MEM, SHADOW, WALK, SHADOWSLOW, MEMSAFE on all 33 configurations; the outcome must be ok within the budget of simulated loop iterations (a recovered Go panic, a budget overrun or an error is a violation; values are not compared). errors: programs that reach a defined error on the executed path — div/rem by the zero register or by a register holding 0, a taken branch or a jump to an undefined label — early, late, inside a counted loop, right after a long-latency load; the outcome must be an error value (ok, a panic or a budget overrun is a violation). Non-trivial = (terminates) the run has a memory access or a taken transfer, (errors) the reference reaches the fault (always, else the case is skipped); distinct by (text, registers, memory image).",
 		assumptions: []string{"the reference interpreter harness/ref is the sequential semantics (cross-checked per instruction by C02)", "parallelism p means EU = WU = p on MVP-6.x and p cores on MVP-7.x/8", "a case matching the trigger of a finding listed in /verif/known-findings.txt is not judged on the configurations of that finding (counted under excluded_by_known_finding)", "budget of simulated loop iterations = 16 x (executed instructions + 64) x 309, never wall-clock"},
 	},
 	"C09": {
-		jobs:        []job{{name: "tail", test: "TestC09", rapid: true, checks: [2]int{200, 5000}, shards: [2]int{16, 16}, secs: [2]int{900, 7200}}},
+		jobs:        []job{{name: "tail", test: "TestC09", rapid: true, checks: [2]int{200, 20000}, shards: [2]int{16, 16}, secs: [2]int{900, 7200}}},
 		rule:        "TAIL programs on the 30 pipelined configurations (MVP-4..8): a random body, then 1-5 controlled last instructions (load missing every cache, load hitting, store to a never-touched line, store to a resident line, two stores back to back, a dependent chain, a producer with no later reader), then the exit point: ret, fall-through, or a taken branch to a final ret; compared with the reference registers and memory. Non-trivial = one of the last five executed instructions is a load or a store (needs >= 3 more cycles at the exit point); distinct by (text, registers, memory image).",
 		assumptions: []string{"the reference interpreter harness/ref is the sequential semantics (cross-checked per instruction by C02)", "parallelism p means EU = WU = p on MVP-6.x and p cores on MVP-7.x/8", "a case matching the trigger of a finding listed in /verif/known-findings.txt is not judged on the configurations of that finding (counted under excluded_by_known_finding)", "budget of simulated loop iterations = 16 x (executed instructions + 64) x 309, never wall-clock"},
 	},
 	"C10": {
-		jobs:        []job{{name: "pairs", test: "TestC10", rapid: true, checks: [2]int{200, 5000}, shards: [2]int{16, 16}, secs: [2]int{900, 7200}}},
+		jobs:        []job{{name: "pairs", test: "TestC10", rapid: true, checks: [2]int{200, 20000}, shards: [2]int{16, 16}, secs: [2]int{900, 7200}}},
 		rule:        "PAIR programs on the 30 pipelined configurations: store->load, load->store and store->store pairs on the same byte/half/word, on different bytes of one word and on another word of the line, at dynamic distance 1..12, through two independent address registers (no register hazard orders the pair), first access hit or miss (line pre-touched or not), optionally separated by a taken branch; compared with the reference (loaded values and memory). Non-trivial = the reference trace holds a byte-overlapping conflicting pair at distance <= 14 (classes conflict:<kind>:<distance bucket>); distinct by (text, registers, memory image).",
 		assumptions: []string{"the reference interpreter harness/ref is the sequential semantics (cross-checked per instruction by C02)", "parallelism p means EU = WU = p on MVP-6.x and p cores on MVP-7.x/8", "a case matching the trigger of a finding listed in /verif/known-findings.txt is not judged on the configurations of that finding (counted under excluded_by_known_finding)", "budget of simulated loop iterations = 16 x (executed instructions + 64) x 309, never wall-clock"},
 	},
